@@ -107,3 +107,108 @@ Example tight_confined_nonvacuous :
   = [TOpendir [47; 114; 47]; TCreat [47; 114; 47; 97]; TUtime [47; 114; 47; 97]; TMkdirOp [47; 114; 47; 100];
      TStat [47; 114; 47; 97]; TOpenR [47; 114; 47; 97]].
 Proof. vm_compute. reflexivity. Qed.
+
+(* ------------------------------------------------------------------ arguments and initialisation *)
+Lemma init_idem : forall env st, t_initted st = true -> init_ft env st = st.
+Proof. intros env st H. unfold init_ft. rewrite H. reflexivity. Qed.
+
+Lemma init_initted : forall env st, t_initted (init_ft env st) = true.
+Proof. intros env st. unfold init_ft. destruct (t_initted st) eqn:E; auto. Qed.
+
+Lemma set_root_flags : forall env p st, t_initted (snd (set_root env p st)) = t_initted st /\ t_enabled (snd (set_root env p st)) = t_enabled st.
+Proof. intros. unfold set_root. destruct ((Zlength p =? 0) || (Zlength p >? C19_PATH_MAX - 1) || negb (dir_ok env p)); simpl; auto. Qed.
+
+Lemma process_arg_initted : forall env st argv, t_initted (snd (process_arg env st argv)) = true.
+Proof.
+  intros env st argv. unfold process_arg. pose proof (init_initted env st) as Hi.
+  destruct argv as [|a tl]; simpl; auto.
+  destruct (list_eqb a s_ftproot).
+  - destruct tl as [|p tl2]; simpl; auto.
+    pose proof (set_root_flags env p (init_ft env st)) as [F _].
+    destruct (set_root env p (init_ft env st)) as [ok st']. simpl in F. destruct ok; simpl; congruence.
+  - destruct (list_eqb a s_disable); simpl; auto.
+Qed.
+
+(* once initialised and disabled, no argument enables transfer again *)
+Lemma process_arg_keeps_disabled : forall env st argv,
+  t_initted st = true -> t_enabled st = false -> t_enabled (snd (process_arg env st argv)) = false.
+Proof.
+  intros env st argv Hi He. unfold process_arg. rewrite (init_idem env st Hi).
+  destruct argv as [|a tl]; simpl; auto.
+  destruct (list_eqb a s_ftproot).
+  - destruct tl as [|p tl2]; simpl; auto.
+    pose proof (set_root_flags env p st) as [_ F].
+    destruct (set_root env p st) as [ok st']. simpl in F. destruct ok; simpl; congruence.
+  - destruct (list_eqb a s_disable); simpl; auto.
+Qed.
+
+Lemma run_args_keeps_disabled : forall env args st,
+  t_initted st = true -> t_enabled st = false -> t_enabled (run_args env st args) = false.
+Proof.
+  intros env args. remember (length args) as n eqn:Hn. revert args Hn.
+  induction n as [n IH] using lt_wf_ind. intros args Hn st Hi He.
+  destruct args as [|a tl]; [exact He|]. cbn [run_args].
+  pose proof (process_arg_initted env st (a :: tl)) as Pi.
+  pose proof (process_arg_keeps_disabled env st (a :: tl) Hi He) as Pe.
+  destruct (process_arg env st (a :: tl)) as [h st']. simpl in Pi, Pe.
+  assert (R1 : t_enabled (run_args env st' tl) = false).
+  { eapply (IH (length tl)); eauto. subst n. simpl. lia. }
+  destruct h as [|[|[|h]]]; auto.
+  destruct tl as [|p tl2]; auto.
+  eapply (IH (length tl2)); eauto. subst n. simpl. lia.
+Qed.
+
+(* C19_tight_disable_is_final: whatever the passwd entry and the file system say, in whatever state the
+   extension is, after a -disablefiletransfer argument no later argument switches transfer on again *)
+Theorem tight_disable_is_final : forall env st rest,
+  t_enabled (run_args env st (s_disable :: rest)) = false.
+Proof.
+  intros env st rest. cbn [run_args].
+  assert (P : process_arg env st (s_disable :: rest) =
+              (1%nat, {| t_initted := t_initted (init_ft env st); t_enabled := false; t_root := t_root (init_ft env st) |})).
+  { unfold process_arg. replace (list_eqb s_disable s_ftproot) with false by reflexivity.
+    replace (list_eqb s_disable s_disable) with true by reflexivity. reflexivity. }
+  rewrite P. apply run_args_keeps_disabled; simpl; auto. apply init_initted.
+Qed.
+
+(* -ftproot is not touched by arguments other than -ftproot once the extension is initialised *)
+Lemma run_args_keeps_root : forall env args st,
+  t_initted st = true -> ~ In s_ftproot args -> t_root (run_args env st args) = t_root st.
+Proof.
+  intros env args. remember (length args) as n eqn:Hn. revert args Hn.
+  induction n as [n IH] using lt_wf_ind. intros args Hn st Hi Hno.
+  destruct args as [|a tl]; [reflexivity|]. cbn [run_args].
+  assert (Ha : list_eqb a s_ftproot = false).
+  { destruct (list_eqb a s_ftproot) eqn:E; auto. apply list_eqb_eq in E. subst a. exfalso. apply Hno. left. reflexivity. }
+  assert (P : exists h st', process_arg env st (a :: tl) = (h, st') /\ (h <= 1)%nat /\ t_initted st' = true /\ t_root st' = t_root st).
+  { unfold process_arg. rewrite (init_idem env st Hi), Ha. destruct (list_eqb a s_disable); eexists; eexists; split; eauto. }
+  destruct P as [h [st' [P [Hh [Pi Pr]]]]]. rewrite P.
+  assert (R : t_root (run_args env st' tl) = t_root st).
+  { rewrite <- Pr. eapply (IH (length tl)); eauto. subst n; simpl; lia. intro X. apply Hno. right. exact X. }
+  destruct h as [|[|h]]; auto. lia.
+Qed.
+
+(* C19_tight_root_is_last_given: the transfer root is the directory of the last -ftproot option (an
+   openable directory of admissible length), whatever came before and whatever the home directory is *)
+Theorem tight_root_is_last_given : forall env st p rest,
+  dir_ok env p = true -> 0 < Zlength p <= C19_PATH_MAX - 1 -> ~ In s_ftproot rest ->
+  t_root (run_args env st (s_ftproot :: p :: rest)) = strip_slash p.
+Proof.
+  intros env st p rest Hd Hl Hno. cbn [run_args].
+  assert (P : process_arg env st (s_ftproot :: p :: rest) =
+              (2%nat, {| t_initted := t_initted (init_ft env st); t_enabled := t_enabled (init_ft env st); t_root := strip_slash p |})).
+  { unfold process_arg. replace (list_eqb s_ftproot s_ftproot) with true by reflexivity.
+    unfold set_root. rewrite Hd.
+    replace ((Zlength p =? 0) || (Zlength p >? C19_PATH_MAX - 1) || negb true) with false; [reflexivity|].
+    symmetry. apply orb_false_iff. split; [apply orb_false_iff; split|reflexivity].
+    - apply Z.eqb_neq. lia.
+    - apply Z.gtb_ltb. apply Z.ltb_ge. lia. }
+  rewrite P. rewrite run_args_keeps_root; auto. simpl. apply init_initted.
+Qed.
+
+(* non-vacuity: unusable home directory, -disablefiletransfer followed by a valid -ftproot *)
+Example tight_args_nonvacuous :
+  let env := {| pw_home := Some [47; 120]; dir_ok := fun p => list_eqb p [47; 114] |} in
+  run_args env tinit0 [s_disable; s_ftproot; [47; 114]] = {| t_initted := true; t_enabled := false; t_root := [47; 114] |} /\
+  run_args env tinit0 [s_ftproot; [47; 114; 47]; [45; 120]] = {| t_initted := true; t_enabled := true; t_root := [47; 114] |}.
+Proof. vm_compute. auto. Qed.
